@@ -95,7 +95,8 @@ fn kmeans<F: Float>(case: &Case, spec: &BuilderSpec, out: &mut Outcome) {
         op(&make, "fit", |p| p.fit(&ds).map(|m| dbg(&m)).map_err(|e: KMeansError| dbg(&e)), |p| p.fit(&ds).map(|m| dbg(&m)).map_err(|e: KMeansError| dbg(&e)), |e| dbg(&KMeansError::from(e))),
         op(&make, "fit_with", |p| p.fit_with(None, &ds).map(|m| dbg(&m)).map_err(|e: IncrKMeansError<_>| dbg(&e)), |p| p.fit_with(None, &ds).map(|m| dbg(&m)).map_err(|e: IncrKMeansError<_>| dbg(&e)), |e| dbg(&IncrKMeansError::<KMeans<F, L2Dist>>::from(e))),
     ];
-    judge(case, spec, &base, &set, Some(&|p| p.clone()), &[], &|p| dbg(p), &|c| dbg(c), ops, out);
+    let rb_init = |p: linfa_clustering::KMeansParams<F, Xoshiro256Plus, L2Dist>, c: &Case| p.init_method(kmeans_init::<F>(c.s("init"), case.u("n_clusters") as usize));
+    judge(case, spec, &base, &set, Some(&|p| p.clone()), &[("init_method", &rb_init)], &|p| dbg(p), &|c| dbg(c), ops, out);
 }
 
 // ------------------------------------------------------------------------------------------
@@ -133,7 +134,9 @@ fn dbscan<F: Float>(case: &Case, spec: &BuilderSpec, out: &mut Outcome) {
         op(&make, "transform", |p| p.transform(&data).map(|m| dbg(&m)).map_err(|e| dbg(&e)), |p| Ok(dbg(&p.transform(&data))), |e| dbg(&e)),
         op(&make, "transform_dataset", |p| p.transform(DatasetBase::from(data.clone())).map(|m| dbg(m.targets())).map_err(|e| dbg(&e)), |p| Ok(dbg(p.transform(DatasetBase::from(data.clone())).targets())), |e| dbg(&e)),
     ];
-    judge(case, spec, &base, &set, Some(&|p| p.clone()), &[], &|p| dbg(p), &|c| dbg(c), ops, out);
+    let rb_dist = |p: linfa_clustering::DbscanParams<F, L2Dist, linfa_nn::CommonNearestNeighbour>, _c: &Case| p.dist_fn(L2Dist);
+    let rb_nn = |p: linfa_clustering::DbscanParams<F, L2Dist, linfa_nn::CommonNearestNeighbour>, c: &Case| p.nn_algo(nn_of(c.s("nn_algo")));
+    judge(case, spec, &base, &set, Some(&|p| p.clone()), &[("dist_fn", &rb_dist), ("nn_algo", &rb_nn)], &|p| dbg(p), &|c| dbg(c), ops, out);
 }
 
 pub fn optics_spec() -> BuilderSpec {
@@ -165,7 +168,9 @@ fn optics<F: Float>(case: &Case, spec: &BuilderSpec, out: &mut Outcome) {
     let set = |mut p: linfa_clustering::OpticsParams<F, L2Dist, linfa_nn::CommonNearestNeighbour>, c: &Case| { if c.moved(&["tolerance"]) { p = p.tolerance(F::cast(c.f("tolerance"))); } if c.moved(&["nn_algo"]) { p = p.nn_algo(nn_of(c.s("nn_algo"))); } p };
     let make = || set(base(), case);
     let ops = vec![op(&make, "transform", |p| p.transform(data.view()).map(|m| dbg(&m)).map_err(|e| dbg(&e)), |p| Ok(dbg(&p.transform(data.view()))), |e| dbg(&e))];
-    judge(case, spec, &base, &set, Some(&|p| p.clone()), &[], &|p| dbg(p), &|c| dbg(c), ops, out);
+    let rb_dist = |p: linfa_clustering::OpticsParams<F, L2Dist, linfa_nn::CommonNearestNeighbour>, _c: &Case| p.dist_fn(L2Dist);
+    let rb_nn = |p: linfa_clustering::OpticsParams<F, L2Dist, linfa_nn::CommonNearestNeighbour>, c: &Case| p.nn_algo(nn_of(c.s("nn_algo")));
+    judge(case, spec, &base, &set, Some(&|p| p.clone()), &[("dist_fn", &rb_dist), ("nn_algo", &rb_nn)], &|p| dbg(p), &|c| dbg(c), ops, out);
 }
 
 // ------------------------------------------------------------------------------------------
@@ -213,7 +218,10 @@ fn gmm<F: Float>(case: &Case, spec: &BuilderSpec, out: &mut Outcome) {
     let set = |mut p: linfa_clustering::GmmParams<F, Xoshiro256Plus>, c: &Case| { if c.moved(&["tolerance"]) { p = p.tolerance(F::cast(c.f("tolerance"))); } if c.moved(&["reg_covar"]) { p = p.reg_covariance(F::cast(c.f("reg_covar"))); } if c.moved(&["n_runs"]) { p = p.n_runs(c.u("n_runs")); } if c.moved(&["max_n_iterations"]) { p = p.max_n_iterations(c.u("max_n_iterations")); } if c.moved(&["init_method"]) { p = p.init_method(if c.s("init_method") == "random" { linfa_clustering::GmmInitMethod::Random } else { linfa_clustering::GmmInitMethod::KMeans }); } p };
     let make = || set(base(), case);
     let ops = vec![op(&make, "fit", |p| p.fit(&ds).map(|m| dbg(&m)).map_err(|e: GmmError| dbg(&e)), |p| p.fit(&ds).map(|m| dbg(&m)).map_err(|e: GmmError| dbg(&e)), |e| dbg(&e))];
-    judge(case, spec, &base, &set, Some(&|p| p.clone()), &[], &|p| dbg(p), &|c| dbg(c), ops, out);
+    let rb_rng = |p: linfa_clustering::GmmParams<F, Xoshiro256Plus>, _c: &Case| p.with_rng(Xoshiro256Plus::seed_from_u64(42));
+    let rb_init = |p: linfa_clustering::GmmParams<F, Xoshiro256Plus>, c: &Case| p.init_method(if c.s("init_method") == "random" { linfa_clustering::GmmInitMethod::Random } else { linfa_clustering::GmmInitMethod::KMeans });
+    let rb_cov = |p: linfa_clustering::GmmParams<F, Xoshiro256Plus>, _c: &Case| p.covariance_type(linfa_clustering::GmmCovarType::Full);
+    judge(case, spec, &base, &set, Some(&|p| p.clone()), &[("with_rng", &rb_rng), ("init_method", &rb_init), ("covariance_type", &rb_cov)], &|p| dbg(p), &|c| dbg(c), ops, out);
 }
 
 // ------------------------------------------------------------------------------------------
@@ -325,5 +333,6 @@ fn hierarchical<F: Float>(case0: &Case, spec: &BuilderSpec, out: &mut Outcome) {
     };
     let make = || set(base(), case);
     let ops = vec![op(&make, "transform", |p| p.transform(kernel()).map(|m| dbg(&canon_partition(m.targets()))).map_err(|e| dbg(&e)), |p| Ok(dbg(&canon_partition(p.transform(kernel()).targets()))), |e| dbg(&e))];
-    judge(case, spec, &base, &set, Some(&|p| p.clone()), &[], &|p| dbg(p), &|c| dbg(c), ops, out);
+    let rb_method = |p: HierarchicalCluster<F>, _c: &Case| p.with_method(linfa_hierarchical::Method::Average);
+    judge(case, spec, &base, &set, Some(&|p| p.clone()), &[("with_method", &rb_method)], &|p| dbg(p), &|c| dbg(c), ops, out);
 }
